@@ -36,7 +36,9 @@ def sym_spec(rng, n=None, ideal_only=False, allow=None, apertures=True, finite=N
 
 def build(spec):
     """lensgen.build + optional per-surface 'dz' (vertex shift along z that leaves the other vertices in place)"""
-    o = lensgen.build(spec)
+    import contextlib, io
+    with contextlib.redirect_stdout(io.StringIO()):      # optiland prints a catalogue warning per glass lookup
+        o = lensgen.build(spec)
     for i, s in enumerate(spec['surfaces']):
         if s.get('dz'):
             o.surface_group.surfaces[i + 1].geometry.cs.z += s['dz']
